@@ -4,11 +4,12 @@ The code under test keeps using `threading.Thread`, `Lock`, `Event`, `time.sleep
 and pinger pipes, but *as seen by the module under test* these names are replaced by shims of one
 `DetSched` instance.  Then
 
-* exactly ONE managed thread runs at any moment (baton passing with one real semaphore per managed
-  thread; there is no controller thread -- the thread that gives up the baton picks its successor);
+* exactly ONE managed thread runs at any moment (baton passing with one real binary semaphore per
+  managed thread; there is no controller thread -- the thread that gives up the baton picks its successor);
 * a thread can lose the baton only at a *switch point*:
     - a LINE event (sys.monitoring, Python 3.12) in one of the functions given as `trace=`
-      (optionally only at the listed line numbers of that function), or
+      (optionally only at the listed line numbers of that function; for functions also listed in
+      `opcode=` every bytecode INSTRUCTION instead), or an explicit `ds.switch_point(site)`, or
     - a shimmed primitive that would block (Lock.acquire on a held lock, Event.wait on a clear event,
       Condition.wait, Thread.join, time.sleep, select on fake fds, pinger.pongAll on an empty pinger), or
     - the end of the thread;
@@ -32,7 +33,14 @@ Typical use
     with ds.patched(mod, threading=ds.threading, Thread=ds.Thread, time=ds.time, select=ds.select), \
          ds.patched(pox.lib.util, makePinger=ds.make_pinger, make_pinger=ds.make_pinger):
       res = ds.run(main)          # main() runs on the first managed thread and starts the others
-    res.deadlock / res.time_advances / res.decisions / res.preemptions / res.thread_errors
+    res.deadlock / res.stalled / res.time_advances / res.decisions / res.preemptions / res.thread_errors
+
+Rules for users: create every thread inside run() (through `ds.Thread` or through patched code); end the
+case with all managed threads finished (e.g. scheduler.quit(), wake it, join it) -- run() raises HarnessError
+if a thread is left over; never raise from `observer`; exceptions escaping a managed thread other than main
+are collected in `res.thread_errors`, main's exception is re-raised by run().  After a deadlock / stall the
+threads are unwound with DetSchedAbort (a BaseException) and run() returns normally with the Result filled
+in, so keep observations in closures rather than in main's return value.
 
 Choosers: `ListChooser([0,0,2,...])` (dense: decision k uses list[k], past the end 0 -- the form a
 Hypothesis `lists(integers())` strategy draws and shrinks well), `SparseChooser({k: v})`,
